@@ -340,6 +340,118 @@ def _impure(prog: Program, u: Unit, seen: Set[str]) -> List[str]:
     return bad
 
 
+def _eval_small(e: ast.AST, env: Dict[str, float]):
+    """Evaluate an arithmetic / comparison / conditional expression over a small
+    integer environment (finite case enumeration of the orderings involved)."""
+    if isinstance(e, ast.Constant):
+        return e.value
+    if isinstance(e, ast.Name):
+        return env[e.id]
+    if isinstance(e, ast.Call) and dotted(e.func) == "len" and norm(e.args[0]) == "self":
+        return env["n"]
+    if isinstance(e, ast.BinOp):
+        a, b = _eval_small(e.left, env), _eval_small(e.right, env)
+        return {ast.Add: a + b, ast.Sub: a - b, ast.Mult: a * b,
+                ast.Div: a / b if b else float("nan")}[type(e.op)]
+    if isinstance(e, ast.Compare) and len(e.ops) == 1:
+        a, b = _eval_small(e.left, env), _eval_small(e.comparators[0], env)
+        return {ast.Eq: a == b, ast.NotEq: a != b, ast.Lt: a < b, ast.LtE: a <= b,
+                ast.Gt: a > b, ast.GtE: a >= b}[type(e.ops[0])]
+    if isinstance(e, ast.IfExp):
+        return _eval_small(e.body, env) if _eval_small(e.test, env) else _eval_small(e.orelse, env)
+    raise AnalysisError(f"I5: expression `{norm(e)}` outside the enumerated idioms")
+
+
+def i5_i6(prog: Program, chk: Check) -> None:
+    chk.rule("I5", "every single-site Liouvillian enters the nearest-neighbour terms with total "
+             "weight one (boundary sites once with weight 1, inner sites twice with weight 1/2), "
+             "for every chain length - necessary for 'a chain without inter-site coupling evolves "
+             "as the single sites'", floor=1)
+    chk.rule("I6", "the gate layers of one TEBD propagator cover the time step exactly once per "
+             "bond parity (order 1: even, odd with dt; order 2: the palindrome even, odd, odd, "
+             "even with dt/2), and PT-TEBD applies two half-step propagators per step", floor=3)
+    u = prog.unit("system:SystemChain.get_nn_full_liouvillians")
+    chk.saw(u)
+    fl = fr = None
+    for st in walk_local(u.node):
+        if isinstance(st, ast.Assign) and dotted(st.targets[0]) == "factor_l":
+            fl = st.value
+        if isinstance(st, ast.Assign) and dotted(st.targets[0]) == "factor_r":
+            fr = st.value
+    terms = [x for x in walk_local(u.node) if isinstance(x, ast.BinOp) and isinstance(x.op, ast.Mult)
+             and dotted(x.left) in ("factor_l", "factor_r")]
+    uses = {dotted(t.left): norm(t.right) for t in terms}
+    shape_ok = fl is not None and fr is not None and \
+        "liouv_l" in uses.get("factor_l", "") and "liouv_r" in uses.get("factor_r", "")
+    bad = []
+    if shape_ok:
+        for n in range(2, 8):
+            for site in range(n):
+                w = 0.0
+                if site <= n - 2:
+                    w += _eval_small(fl, {"i": site, "n": n})
+                if site >= 1:
+                    w += _eval_small(fr, {"i": site - 1, "n": n})
+                if abs(w - 1.0) > 1e-12:
+                    bad.append((n, site, w))
+    chk.add("I5", u, f"factor_l = {norm(fl) if fl is not None else '?'}; "
+            f"factor_r = {norm(fr) if fr is not None else '?'}", shape_ok and not bad,
+            "weights sum to 1 for chain lengths 2..7" if shape_ok and not bad else
+            f"site weights differ from 1 (chain length, site, weight): {bad[:4]}")
+    # I6
+    cp = prog.unit("mps_mpo:compute_tebd_propagator")
+    chk.saw(cp)
+    branches = {}
+    for st in walk_local(cp.node):
+        if isinstance(st, ast.If) and isinstance(st.test, ast.Compare) and \
+                dotted(st.test.left) == "order" and isinstance(st.test.comparators[0], ast.Constant):
+            cur = st
+            while True:
+                order = cur.test.comparators[0].value
+                dt_e, seq = None, None
+                for x in ast.walk(ast.Module(body=cur.body, type_ignores=[])):
+                    if isinstance(x, ast.Call) and call_name(x) == "compute_trotter_layers":
+                        dt_e = next(k.value for k in x.keywords if k.arg == "dt")
+                    if isinstance(x, ast.Call) and call_name(x) == "TebdPropagator":
+                        lst = next(k.value for k in x.keywords if k.arg == "gate_layers")
+                        seq = [e.slice.value for e in lst.elts]
+                branches[order] = (dt_e, seq)
+                if len(cur.orelse) == 1 and isinstance(cur.orelse[0], ast.If) and \
+                        isinstance(cur.orelse[0].test, ast.Compare):
+                    cur = cur.orelse[0]
+                else:
+                    break
+            break
+    for order, (dt_e, seq) in sorted(branches.items()):
+        frac = None
+        if dt_e is not None:
+            from oqv.forms import Poly, eval_form
+            f = eval_form(dt_e, lambda x: Poly.sym("TS") if dotted(x) == "time_step" else None)
+            frac = f.coeff(TS=1) if f is not None else None
+        per_parity = {0: 0, 1: 0}
+        for k in (seq or []):
+            per_parity[k] += frac if frac is not None else float("nan")
+        ok = frac is not None and per_parity[0] == 1 and per_parity[1] == 1 and \
+            (order == 1 or seq == list(reversed(seq)))
+        chk.add("I6", cp, f"order {order}: layers {seq} with dt = {norm(dt_e) if dt_e is not None else '?'}",
+                ok, f"each parity covers {per_parity[0]} x time_step" if ok else
+                f"even layers cover {per_parity[0]}, odd layers {per_parity[1]} of the time step "
+                f"(or the order-2 sequence is not symmetric)")
+    if set(branches) != {1, 2}:
+        raise AnalysisError(f"I6: Trotter orders found {sorted(branches)}, expected 1 and 2")
+    pi = prog.unit("pt_tebd:PtTebd.initialize")
+    c = [x for x in walk_local(pi.node) if isinstance(x, ast.Call)
+         and call_name(x) == "compute_tebd_propagator"]
+    ts = next((k.value for k in c[0].keywords if k.arg == "time_step"), None) if c else None
+    ok = ts is not None and norm(ts) in ("self._parameters.dt / 2.0", "self._parameters.dt / 2")
+    cs = prog.unit("pt_tebd:PtTebd.compute_step")
+    loops = sum(1 for x in walk_local(cs.node) if isinstance(x, ast.For)
+                and "gate_layers" in norm(x.iter))
+    chk.add("I6", pi, f"propagator time step {norm(ts) if ts is not None else '?'}, applied "
+            f"{loops} times per step", ok and loops == 2,
+            "" if ok and loops == 2 else "half-step propagators do not add up to one full step")
+
+
 def run(prog: Program, chk: Check) -> None:
     chk.explanation = (
         "Decides two clauses of C10: 'all execution modes are usable' as far as name resolution "
@@ -349,7 +461,9 @@ def run(prog: Program, chk: Check) -> None:
         "of a layer complete' (I2: effect + ordering rule - under (i)-(v) the layer result is a "
         "function of the inputs alone for every completion order).")
     chk.not_decided = ("Exactness against single-site / dense propagation, norm conservation, "
-                       "picklability of the work items.")
+                       "picklability of the work items; I5/I6 are necessary structural "
+                       "conditions of the exactness clauses (site weights, layer durations), not "
+                       "exactness itself.")
     chk.assumptions = [
         "concurrent.futures: Executor.map yields results in submission order; leaving the "
         "`with` block joins all workers",
@@ -357,3 +471,4 @@ def run(prog: Program, chk: Check) -> None:
     ]
     i1(prog, chk)
     i2_i3(prog, chk)
+    i5_i6(prog, chk)
